@@ -190,6 +190,13 @@ func registerReflect() {
 		in.throw("explicit", "reflect: call of reflect.Value.IsNil on non-nillable Value", Iface{T: types.Typ[types.String], V: "reflect: IsNil"})
 		return nil
 	}
+	intrinsics["(reflect.Value).IsZero"] = func(in *Interp, caller *frame, fn *ssa.Function, args []Value) Value {
+		t, v, fl := rvParts(args[0])
+		if fl == 0 {
+			in.reflectPanic("IsZero")
+		}
+		return in.reflectIsZero(t, v)
+	}
 	intrinsics["(reflect.Value).Elem"] = func(in *Interp, caller *frame, fn *ssa.Function, args []Value) Value {
 		t, v, fl := rvParts(args[0])
 		if fl == 0 {
@@ -563,4 +570,55 @@ func (in *Interp) deepEqualT(t types.Type, x, y Value, depth int) Value {
 		return isNilFunc(x) && isNilFunc(y)
 	}
 	return in.equals(t, x, y)
+}
+
+// reflectIsZero: reflect.Value.IsZero - nil-ness for the nillable kinds, comparison with the zero value for basic
+// kinds (possibly a symbolic condition), field by field for structs and arrays.
+func (in *Interp) reflectIsZero(t types.Type, v Value) Value {
+	switch ut := t.Underlying().(type) {
+	case *types.Basic:
+		return in.equals(t, v, zero(t))
+	case *types.Struct:
+		var acc Value = true
+		sv := v.(Struct)
+		for i := 0; i < ut.NumFields(); i++ {
+			if ut.Field(i).Name() == "_" {
+				continue
+			}
+			acc = in.and(acc, in.reflectIsZero(ut.Field(i).Type(), sv[i]))
+			if acc == false {
+				return false
+			}
+		}
+		return acc
+	case *types.Array:
+		var acc Value = true
+		for _, e := range v.(Array) {
+			acc = in.and(acc, in.reflectIsZero(ut.Elem(), e))
+			if acc == false {
+				return false
+			}
+		}
+		return acc
+	}
+	switch v := v.(type) {
+	case *Value:
+		return v == nil
+	case []Value:
+		return v == nil
+	case *Map:
+		return v == nil
+	case Iface:
+		return v.T == nil
+	case *ssa.Function:
+		return v == nil
+	case *Closure:
+		return v == nil
+	case *chanVal:
+		return v == nil
+	case unsafePtr:
+		return v.v == nil
+	}
+	in.unsupported("reflect.Value.IsZero on " + t.String())
+	return nil
 }
